@@ -86,10 +86,15 @@ impl Write for FaultSink {
 }
 
 fn write_doc(d: &Doc, nl: bool, sink: &mut FaultSink) -> bool {
+    write_doc_mask(d, nl, sink, 0)
+}
+
+/// bit i of `mask` set: the attribute writer of link i is dropped without calling its (optional) finish()
+fn write_doc_mask(d: &Doc, nl: bool, sink: &mut FaultSink, mask: u64) -> bool {
     let mut w = LinkFormatWrite::new(sink);
     w.set_add_newlines(nl);
     let mut inner_ok = true;
-    for (t, attrs) in d {
+    for (i, (t, attrs)) in d.iter().enumerate() {
         let mut aw = w.link(t);
         for a in attrs {
             aw = match a {
@@ -99,7 +104,11 @@ fn write_doc(d: &Doc, nl: bool, sink: &mut FaultSink) -> bool {
                 AttrSpec::U16(k, n) => aw.attr_u16(k, *n),
             };
         }
-        inner_ok = aw.finish().is_ok();
+        if mask >> (i % 64) & 1 == 1 {
+            drop(aw);
+        } else {
+            inner_ok = aw.finish().is_ok();
+        }
     }
     let fin = w.finish().is_ok();
     // the per-link finish and the final finish report the same latched error
@@ -313,6 +322,33 @@ fn doc_wf(d: &Doc) -> bool {
                 !k.is_empty() && !k.chars().any(|c| c == ';' || c == ',' || c == '=' || c == '"' || c.is_whitespace())
             })
     })
+}
+
+/// attribute writers dropped without finish(): the document written is the same
+pub fn case_writenf(cx: &mut Ctx, d: &Doc, nl: bool, mask: u64) {
+    let line = format!("LF writenf {} {} {}", nl as u8, mask, doc_token(d));
+    let full = fault_free(d, nl);
+    let r = guarded(|| {
+        let mut sink = FaultSink::new(None, false);
+        let ok = write_doc_mask(d, nl, &mut sink, mask);
+        (ok, sink.calls, sink.buf)
+    });
+    match r {
+        None => {
+            cx.case(&line, "panic");
+            cx.oracle_fail("C16", &line, "writer panicked");
+        }
+        Some((ok, calls, buf)) => {
+            cx.case(&line, &format!("{} {} {}", if ok { "ok" } else { "err" }, calls, hex(buf.as_bytes())));
+            cx.nontrivial(&line);
+            if buf != full {
+                cx.oracle_fail("C16", &line, &format!("with attribute writers dropped instead of finished the document reads {:?} instead of {:?}", buf, full));
+            }
+            if !ok {
+                cx.oracle_fail("C18", &line, "writer reports an error although the sink never failed");
+            }
+        }
+    }
 }
 
 pub fn case_write(cx: &mut Ctx, d: &Doc, nl: bool) -> usize {
@@ -581,6 +617,12 @@ pub fn run(cx: &mut Ctx) {
     let mut faults = 0u64;
     for i in 0..ndocs {
         let d = random_doc(&mut rng);
+        if d.len() >= 2 && i % 2 == 0 {
+            let all = (1u64 << d.len().min(63)) - 1;
+            for mask in [all, 1, all >> 1, rng.next() & all] {
+                case_writenf(cx, &d, i % 4 == 0, mask);
+            }
+        }
         for nl in [false, true] {
             let calls = case_write(cx, &d, nl);
             // every fault position x once/persist (complete enumeration per document)
